@@ -43,6 +43,9 @@ import (
 //   c14 par <thr> <client> <n> <nonce> <overlap|plain>   one request to n servers at once
 //        (SendProtobufParallelWithDecoder); overlap: a decoder that makes two replies overlap
 //   c14 all <thr> <client> <n> <path> <hex>   the same request to n servers one after the other (Client.SendToAll)
+//   c14 allwho <thr> <client> <n> <nonce> <pattern>   Client.SendToAll of a C14Who request (answered with the
+//                             answering server's address) to a roster given by the pattern: u = the next of the
+//                             n servers, d = an unreachable node; observed: whose reply sits at which position
 //   c14 reg <ws|rest:<METHOD>:<min>:<max>> <sig>   a registration attempt with the function <sig> of c14reg.go
 //   c14 direct <path> <hex>   Service.ProcessClientRequest of the first server called directly (no websocket)
 //   c14 cstate <client>       the paths for which the onet.Client holds a connection and a lock object
@@ -115,12 +118,7 @@ func (e *c14env) doPar(tk []string) string {
 		nodes = append(nodes, s.ServerIdentity)
 	}
 	// nodes that cannot be reached (nothing listens on these ports): Send to them fails
-	down := func(i int) *network.ServerIdentity {
-		si := network.NewServerIdentity(fix.Suite.Point().Pick(fix.Suite.XOF([]byte(fmt.Sprint("c14down", i)))),
-			network.NewAddress(network.PlainTCP, fmt.Sprintf("127.0.0.1:%d", 1+2*i)))
-		si.URL = fmt.Sprintf("http://127.0.0.1:%d", 1+2*i)
-		return si
-	}
+	down := c14down
 	switch tk[6] {
 	case "down1":
 		nodes = append(nodes, down(0))
@@ -232,6 +230,72 @@ func (e *c14env) doDirect(tk []string) string {
 		return "undecodable-reply " + h.Hex(rep)
 	}
 	return "ok " + c14showReply(r)
+}
+
+// c14down is a node that cannot be reached (nothing listens on these ports): Send to it fails.
+func c14down(i int) *network.ServerIdentity {
+	si := network.NewServerIdentity(fix.Suite.Point().Pick(fix.Suite.XOF([]byte(fmt.Sprint("c14down", i)))),
+		network.NewAddress(network.PlainTCP, fmt.Sprintf("127.0.0.1:%d", 1+2*i)))
+	si.URL = fmt.Sprintf("http://127.0.0.1:%d", 1+2*i)
+	return si
+}
+
+// doAllWho sends a C14Who request with Client.SendToAll to a roster described
+// by the pattern: u = the next server of the case, d = an unreachable node.
+// Every server answers with its own address, so the observation says for every
+// roster position whose reply the list holds there: "own", "nil" (nothing),
+// "of<j>" (the reply of roster entry j), "missing" (the list is shorter),
+// "foreign"; then whether an error was returned.
+func (e *c14env) doAllWho(tk []string) string {
+	nonce, err := strconv.ParseInt(tk[5], 10, 64)
+	if err != nil || tk[6] == "" {
+		return "bad-op"
+	}
+	var sis []*network.ServerIdentity
+	up, dn := 0, 0
+	for _, ch := range tk[6] {
+		switch {
+		case ch == 'u' && up < len(e.srvs):
+			sis = append(sis, e.srvs[up].ServerIdentity)
+			up++
+		case ch == 'd':
+			sis = append(sis, c14down(dn))
+			dn++
+		default:
+			return "bad-op"
+		}
+	}
+	buf, err := protobuf.Encode(&C14Who{Nonce: nonce})
+	if err != nil {
+		return "bad-op"
+	}
+	reps, err := e.wsClient(tk[3]).SendToAll(onet.NewRoster(sis), "C14Who", buf)
+	cells := make([]string, len(sis))
+	for i := range sis {
+		c := string(tk[6][i]) + ":"
+		switch {
+		case i >= len(reps):
+			c += "missing"
+		case reps[i] == nil:
+			c += "nil"
+		default:
+			var rep C14WhoReply
+			c += "foreign"
+			if protobuf.Decode(reps[i], &rep) == nil && rep.Nonce == nonce {
+				for j, si := range sis {
+					if rep.Addr == string(si.Address) {
+						c = string(tk[6][i]) + ":" + map[bool]string{true: "own", false: fmt.Sprintf("of%d", j)}[j == i]
+					}
+				}
+			}
+		}
+		cells[i] = c
+	}
+	es := "noerr"
+	if err != nil {
+		es = "err"
+	}
+	return fmt.Sprintf("len=%d %s %s", len(reps), strings.Join(cells, " "), es)
 }
 
 // doAll sends one request to the first n servers one after the other
@@ -688,7 +752,7 @@ func c14exec(c *h.Ctx, cs *h.Case) {
 	nsrv := 1
 	for _, op := range cs.Ops {
 		tk := strings.Fields(op)
-		if len(tk) == 7 && (tk[1] == "par" || tk[1] == "all") {
+		if len(tk) == 7 && (tk[1] == "par" || tk[1] == "all" || tk[1] == "allwho") {
 			if n, err := strconv.Atoi(tk[4]); err == nil && n > nsrv && n <= 8 {
 				nsrv = n
 			}
@@ -729,6 +793,8 @@ func c14exec(c *h.Ctx, cs *h.Case) {
 						cs.Impl[j.i] = e.doPar(j.tk)
 					case j.tk[1] == "all":
 						cs.Impl[j.i] = e.doAll(j.tk)
+					case j.tk[1] == "allwho":
+						cs.Impl[j.i] = e.doAllWho(j.tk)
 					default:
 						cs.Impl[j.i] = e.doREST(j.tk)
 					}
@@ -742,7 +808,7 @@ func c14exec(c *h.Ctx, cs *h.Case) {
 		tk := strings.Fields(op)
 		switch {
 		case len(tk) == 6 && tk[0] == "c14" && tk[1] == "ws", len(tk) == 9 && tk[0] == "c14" && tk[1] == "rest",
-			len(tk) == 7 && tk[0] == "c14" && (tk[1] == "par" || tk[1] == "all"):
+			len(tk) == 7 && tk[0] == "c14" && (tk[1] == "par" || tk[1] == "all" || tk[1] == "allwho"):
 			if _, ok := threads[tk[2]]; !ok {
 				order = append(order, tk[2])
 			}
@@ -987,6 +1053,25 @@ func c14oracle(cs *h.Case) {
 				if !strings.HasPrefix(obs, "err ") {
 					cs.Fail("c14:error-not-reported:direct", fmt.Sprintf("request %d %q must be answered with an error, got %q", i, op, obs))
 				}
+			}
+			continue
+		}
+		if len(tk) == 7 && tk[1] == "allwho" {
+			// the reply list of SendToAll is indexed like the roster: position i holds the reply of
+			// roster entry i (every server answers with its own address) or nothing if the Send to
+			// it failed; an error is returned iff some Send failed
+			f := strings.Fields(obs)
+			classes["allwho:"+f[len(f)-1]] = true
+			pat := tk[6]
+			ok := len(f) == len(pat)+2 && f[0] == fmt.Sprintf("len=%d", len(pat))
+			anyDown := strings.Contains(pat, "d")
+			for k := 0; ok && k < len(pat); k++ {
+				ok = f[1+k] == string(pat[k])+":"+map[bool]string{true: "own", false: "nil"}[pat[k] == 'u']
+			}
+			if !ok {
+				cs.Fail("c14:wrong-reply:all", fmt.Sprintf("request %d %q: the replies of SendToAll are not those of the servers at their roster positions: %s", i, op, obs))
+			} else if f[len(f)-1] != map[bool]string{true: "err", false: "noerr"}[anyDown] {
+				cs.Fail("c14:error-not-reported:all", fmt.Sprintf("request %d %q: %s", i, op, obs))
 			}
 			continue
 		}
